@@ -59,9 +59,11 @@ void configure(Pipeline *pipeline, const QString &path, int maxFileSize, int max
     *pipeline << PlatformStdSinkPtr::create();
 
     if (!path.isEmpty()) {
-        *pipeline << FunctionFormatterPtr::create([](const LogMessage &lmsg) {
+        // Owned by the formatter (not a function-local static): it must stay valid while the
+        // logger drains its backlog at process exit.
+        const QRegularExpression ansiEscape(QStringLiteral("\033\\[[0-9;]*m"));
+        *pipeline << FunctionFormatterPtr::create([ansiEscape](const LogMessage &lmsg) {
             auto fmsg = lmsg.formattedMessage();
-            static const QRegularExpression ansiEscape(QStringLiteral("\033\\[[0-9;]*m"));
             fmsg.remove(ansiEscape);
             return fmsg;
         });
